@@ -95,11 +95,12 @@ impl TaskValid {
                 true => true,
                 false => self.attrs["become"].as_bool().unwrap_or(false),
             },
-            become_user: match self.attrs["become_user"].as_str() {
-                Some(s) => s,
-                None => global_params.become_user,
-            }
-            .to_owned(),
+            // a user id written as a YAML number (`become_user: 65534`) names a user like the quoted form
+            become_user: match &self.attrs["become_user"] {
+                Value::String(s) => s.to_owned(),
+                Value::Number(n) => n.to_string(),
+                _ => global_params.become_user.to_owned(),
+            },
             changed_when: self.parse_array(&self.attrs["changed_when"]),
             check_mode: match global_params.check_mode {
                 true => true,
